@@ -609,8 +609,8 @@ impl ArrayImpl {
 
     /// Returns the sum of the non-null values, or NULL if there is none.
     ///
-    /// The raw slots under NULLs hold arbitrary values (e.g. the result of `NULL + 5`), so they must
-    /// not take part in the sum.
+    /// The raw slots under NULLs hold arbitrary values (e.g. the result of `NULL + 5`), so they
+    /// must not take part in the sum.
     pub fn sum(&self) -> DataValue {
         if self.count() == 0 {
             return DataValue::Null;
